@@ -194,7 +194,8 @@ func Run(r *core.Run) {
 		"client keys always carry at least one purpose (the client's key type cannot express a purpose-less key: observed, not judged)"}
 
 	// ------------------------------------------------------------- A. request builders
-	opaque := `{"publicKey":[` + ops.PubKeyJSON("k1", keys.New("P-256", 600), `["authentication"]`) + `],"service":[{"id":"s1","type":"T","serviceEndpoint":"https://s1.example/","priority":1,"routingKeys":["rk1","rk2"],"description":"as created"}],"alsoKnownAs":["https://aka.example/"],"other":{"n":1},"list":[1,2]}`
+	// (the second key is a BBS+ key the way key libraries write it as a JWK: kty EC, a curve name of its own, x only)
+	opaque := `{"publicKey":[` + ops.PubKeyJSON("k1", keys.New("P-256", 600), `["authentication"]`) + `,{"id":"bls1","type":"Bls12381G2Key2020","purposes":["assertionMethod"],"publicKeyJwk":{"kty":"EC","crv":"BLS12381_G2","x":"` + strings.Repeat("QUJD", 32) + `"}}],"service":[{"id":"s1","type":"T","serviceEndpoint":"https://s1.example/","priority":1,"routingKeys":["rk1","rk2"],"description":"as created"}],"alsoKnownAs":["https://aka.example/"],"other":{"n":1},"list":[1,2]}`
 	patchTexts := map[string]string{
 		"replace": `{"action":"replace","document":{"publicKeys":[` + ops.PubKeyJSON("k2", keys.New("Ed25519", 600), `["assertionMethod"]`) + `],"services":[{"id":"s2","type":"T","serviceEndpoint":"https://s2.example/"}]}}`,
 		// (the add patches also name an id that the created document has: the stored entry is replaced by the new one, whole)
